@@ -28,6 +28,12 @@ the carrier (its own text, its own attributes, the inheritable attribute itself,
 validation_hook that answers a mode (both make raw_decode continue in a COPY of the validation context); an error without
 an element or without a path is always a failure (C19-F3 = C04-F5 is fixed by 38d1916: no matcher remains).
 
+Family `cm`: every compositor (sequence, choice, all; nested; group references; XSD 1.1 all with minOccurs/maxOccurs > 1 and
+all-groups inside all) x the occurrence ranges {0,1},{1,1},{2,2},{2,4},{0,unbounded},{3,unbounded} on elements and on groups x
+the operators "remove one occurrence" / "add one occurrence" at every child of words whose counts sit on the boundaries of the
+ranges (leaving min-1, exactly min, max, max+1).  What is a fault is judged by the independent reading `lib_cm.ref_accepts`,
+not by the library; a deviation that the Lean port of the pinned ModelVisitor (drv_c01) reproduces is C01-F0: counted, skipped.
+
 Fault localisation as a theorem (`single_fault_localised`, `observed_fault_localised`, Props/C19.lean): the
 validator is modelled as a compositional `Val` (Model/Localise.lean).  The run ties it to the code as follows:
   * `validation_hook` (public API) records the declaration used for every element; the errors located at every
@@ -69,6 +75,9 @@ TRUSTED = ['the XPath reading of a path (child steps, positional predicate among
            'the shape `Val` of the validator (own errors before/after the children, children validated recursively) and '
            'its hypotheses H-own, H-gov, H-eff are modelling assumptions: checked on every run by the observation tables '
            'and by comparing the predicted error list of every damaged document with iter_errors, not proved of the code',
+           'content-model family: `lib_cm.ref_accepts` (derivatives of the unrolled expression) is the language; the classification '
+           'of a library deviation as C01-F0 trusts the Lean port of ModelVisitor (drv_c01, tied to the code by the C01 check); '
+           'when that driver binary is absent such deviations are only counted',
            'ElementTree.iterparse read-ahead (which elements exist when a lazy error is created) is observed, not modelled: '
            'the model takes the number of started elements as a parameter']
 ASSUMPTIONS = ['namespaces are declared on the root only (three layouts) for one faulted document in four, on non-root '
@@ -848,7 +857,7 @@ def py_near(damaged: tuple, p: tuple) -> bool:
 
 def run_case(ctx: Ctx, case: dict, xml: str, form: str, parser: str, damaged: Optional[tuple],
              reqs: list, pend: list, tabs: Optional[Tables] = None, loc: Optional[dict] = None,
-             sch=None) -> Optional[dict]:
+             sch=None, defer_valid: Optional[list] = None) -> Optional[dict]:
     import xmlschema
     if parser == 'lxml':
         import lxml.etree as LE
@@ -874,6 +883,9 @@ def run_case(ctx: Ctx, case: dict, xml: str, form: str, parser: str, damaged: Op
             if obs is not None:
                 obs['doc'] = doc_of(root)
         return obs
+    if not errors and defer_valid is not None:
+        defer_valid.append(case)                  # judged by the caller (content-model family: C01-F0 classification)
+        return None
     if not errors:
         detail = {'kind': 'valid', 'damaged': list(damaged)}
         fid = known_match(case, detail)
@@ -1616,6 +1628,209 @@ def clone_tail(d: dict) -> dict:
     return out
 
 
+# ------------------------------------------------------------------------------------------------
+# every compositor x every occurrence range x the single-fault operators "remove one occurrence" / "add one occurrence" at
+# every boundary.  Models are generator-level ASTs of harness/lib_cm.py (children are xs:string leaves a, b, c, h); a
+# document is a child word.  What is a fault is judged by the independent content-model reading `lib_cm.ref_accepts`
+# (derivatives of the unrolled expression, xs:all = shuffle), NOT by the library: the word before the fault is in the
+# language, the word after it is not.  Where the library accepts a word that is not in the language and the Lean port of the
+# pinned ModelVisitor (drv_c01, property C01) accepts it too, that is the known deviation C01-F0 of ModelVisitor — counted
+# and skipped here, it is C01's business; any other "reported valid" is a C19 failure.
+CM_OCCS = [(0, 1), (1, 1), (2, 2), (2, 4), (0, None), (3, None)]
+
+
+def cm_models(rng, v11: bool, n_random: int) -> list:
+    def e(n, r=(1, 1)):
+        return ('e', n, r[0], r[1])
+
+    def g(kind, items, r=(1, 1), ref=False):
+        return ('g', kind, r[0], r[1], items, 'ref') if ref else ('g', kind, r[0], r[1], items)
+    out = []
+    for R in CM_OCCS:
+        part = [('seq(b, a{R}, c?)', g('sequence', [e('b'), e('a', R), e('c', (0, 1))])),
+                ('seq(a{R}, b?)', g('sequence', [e('a', R), e('b', (0, 1))])),
+                ('seq(b, seq(a{R}, c)?, h)', g('sequence', [e('b'), g('sequence', [e('a', R), e('c')], (0, 1)), e('h')])),
+                ('seq(b, seq(a, c){R})', g('sequence', [e('b'), g('sequence', [e('a'), e('c')], R)])),
+                ('seq(b, @seq(a{R}, c))', g('sequence', [e('b'), g('sequence', [e('a', R), e('c')], ref=True)])),
+                ('choice(a{R} | b)', g('choice', [e('a', R), e('b')])),
+                ('choice{R}(a | b)', g('choice', [e('a'), e('b')], R)),
+                ('seq(h, choice(a{R} | b), c?)', g('sequence', [e('h'), g('choice', [e('a', R), e('b')]), e('c', (0, 1))])),
+                ('choice(seq(a{R}, b) | c)', g('choice', [g('sequence', [e('a', R), e('b')]), e('c')])),
+                ('seq(choice(a | b){R}, c)', g('sequence', [g('choice', [e('a'), e('b')], R), e('c')]))]
+        if v11 or R in ((0, 1), (1, 1)):
+            part += [('all(a{R}, b, c?)', g('all', [e('a', R), e('b'), e('c', (0, 1))])),
+                    ('all?(a{R}, b)', g('all', [e('a', R), e('b')], (0, 1)))]
+        if v11:
+            part += [('all(a{R}, b{2,2})', g('all', [e('a', R), e('b', (2, 2))])),
+                    ('all(a{R}, b{3,inf}, c{2,4})', g('all', [e('a', R), e('b', (3, None)), e('c', (2, 4))])),
+                    ('all(@all(a{R}, b), c?)', g('all', [g('all', [e('a', R), e('b')], ref=True), e('c', (0, 1))]))]
+        out += [(n.replace('{R}', '{%d,%s}' % (R[0], 'inf' if R[1] is None else R[1])), m) for n, m in part]
+
+    def rnd(d: int, top: bool) -> tuple:
+        kinds = ['sequence', 'sequence', 'choice', 'choice'] + (['all'] if top else [])
+        kind = rng.choice(kinds)
+        names = rng.sample(['a', 'b', 'c', 'h'], rng.randint(1, 3))
+        if kind == 'all':
+            occs = CM_OCCS if v11 else [(0, 1), (1, 1)]
+            return g('all', [e(n, rng.choice(occs)) for n in names], rng.choice([(1, 1), (1, 1), (0, 1)]))
+        items = []
+        for n in names:
+            if d > 1 and rng.random() < 0.35:
+                items.append(rnd(d - 1, False))
+            else:
+                items.append(e(n, rng.choice(CM_OCCS)))
+        return g(kind, items, rng.choice([(1, 1), (1, 1), (0, 1), (2, 2), (0, None), (2, 4)]))
+    out += [('random', rnd(3, True)) for _ in range(n_random)]
+    return out
+
+
+def cm_sample(ast: tuple, rng) -> list:
+    """a word of the language of the model, the occurrence counts drawn from the boundaries of the ranges"""
+    lo, hi = ast[2], ast[3]
+    n = rng.choice([lo, lo, hi if hi is not None else lo + 2, hi if hi is not None else lo + 1, min(lo + 1, hi if hi is not None else lo + 1)])
+    if ast[0] == 'e':
+        return [ast[1]] * n
+    out: list = []
+    for _ in range(min(n, 4) if ast[0] == 'g' and hi is None else n):
+        if ast[1] == 'sequence':
+            for i in ast[4]:
+                out += cm_sample(i, rng)
+        elif ast[1] == 'choice':
+            if ast[4]:
+                out += cm_sample(rng.choice(ast[4]), rng)
+        else:                                     # xs:all: any interleaving of the items' words
+            parts = [cm_sample(i, rng) for i in ast[4]]
+            merged: list = []
+            while any(parts):
+                k = rng.choice([j for j, q in enumerate(parts) if q])
+                merged.append(parts[k].pop(0))
+            out += merged
+    return out
+
+
+def cm_xml(k: int, word: list) -> str:
+    from harness import lib_cm as cm
+    return f'<t:m{k} xmlns:t="{cm.TNS}">' + ''.join(f'<t:{x}>x</t:{x}>' for x in word) + f'</t:m{k}>'
+
+
+def cm_schema(case: dict):
+    """the schema of a replayed case: element m<k> with the model of the case"""
+    from harness import lib_cm as cm
+
+    def to_ast(x):
+        if x[0] in ('e', 'a'):
+            return tuple(x)
+        return ('g', x[1], x[2], x[3], [to_ast(i) for i in x[4]]) + (('ref',) if len(x) > 5 else ())
+    return cm.build_schema([('g', 'sequence', 1, 1, [])] * case['k'] + [to_ast(case['ast'])], case['v'] == '1.1')
+
+
+def cm_family(ctx: Ctx, drv: Optional[Driver]) -> None:
+    from harness import lib_cm as cm
+    rng = ctx.rng
+    port = Driver('drv_c01')
+    have_port = drv is not None and port.path.exists()
+    if not have_port:
+        ctx.notes.append('content-model family: the Lean port of ModelVisitor (drv_c01) is not available: a damaged word '
+                         'that the library accepts cannot be classified against C01-F0 and is only counted')
+    reqs: list = []
+    pend: list = []
+    for v11 in (False, True):
+        models = cm_models(rng, v11, ctx.pick(40, 400))
+        for b0 in range(0, len(models), 40):
+            batch = models[b0:b0 + 40]
+            try:
+                sch = cm.build_schema([m for _n, m in batch], v11)
+            except Exception as exc:  # noqa
+                ctx.count('content-model family: schema batch refused: ' + type(exc).__name__)
+                continue
+            for k, (name, ast) in enumerate(batch):
+                xe = sch.elements[f'm{k}']
+                group = xe.type.content
+                built_ok = not xe.type.errors and not group.errors and all(not c.errors for c in group.iter_components())
+                if not built_ok or cm.upa_ok(cm.strip_refs(ast), v11=v11) is not True:
+                    ctx.count('content-model family: model not built or not deterministic (skipped)')
+                    continue
+                plain = cm.strip_refs(ast)
+                top = 'all' if ast[1] == 'all' else ast[1]
+                ctx.count(f"content-model family: models {'1.1' if v11 else '1.0'}/{top}"
+                          + ('/nested' if any(i[0] == 'g' for i in ast[4]) else ''))
+                base = {'doc': f'cm-{name}', 'form': 'cm', 'layout': 'prefixed', 'comments': False, 'v': '1.1' if v11 else '1.0',
+                        'model': cm.show(ast), 'ast': ast, 'k': k}
+                valid_words: dict = {}
+                for _ in range(ctx.pick(10, 24)):
+                    w = cm_sample(plain, rng)
+                    if len(w) <= 14 and cm.ref_accepts(plain, w):
+                        valid_words.setdefault(''.join(w), w)
+                deferred: list = []           # (case, word, expected in language) reported valid / invalid against the reference
+                seen: set = set()
+                for w in valid_words.values():
+                    wx = cm_xml(k, w)
+                    ok = not list(sch.iter_errors(wx))
+                    if not ok:
+                        # a word of the language that the library rejects: not a document of this family
+                        deferred.append((dict(base, fault=None, word=''.join(w), parser='etree', xml=wx), w, True))
+                        continue
+                    ctx.case(dict(base, fault=None, word=''.join(w)), False, tag='content-model family: valid word')
+                    for i in range(len(w)):
+                        for kind, w2, damaged in (('missing child', w[:i] + w[i + 1:], ()),
+                                                  ('extra child', w[:i + 1] + [w[i]] + w[i + 1:], (i + 1,))):
+                            key = kind + ''.join(w2)
+                            if key in seen:
+                                continue
+                            seen.add(key)
+                            n_before = w.count(w[i])
+                            in_lang = cm.ref_accepts(plain, w2)
+                            ctx.count(f"content-model family: {'remove' if kind[0] == 'm' else 'add'} one occurrence -> "
+                                      + ('still in the language' if in_lang else 'not in the language'))
+                            x2 = cm_xml(k, w2)
+                            case = dict(base, fault=kind, word=''.join(w), after=''.join(w2), occurrences_before=n_before,
+                                        node=[], damaged=list(damaged), xml=x2)
+                            if in_lang:
+                                # exactly min / exactly max: not a fault, the document must stay valid
+                                if list(sch.iter_errors(x2)):
+                                    deferred.append((dict(case, fault=None, parser='etree'), w2, True))
+                                else:
+                                    ctx.case(dict(case, fault=None), False, tag='content-model family: boundary word, still valid')
+                                continue
+                            for parser in ('etree', 'lxml'):
+                                dv: list = []
+                                run_case(ctx, dict(case, parser=parser), x2, 'cm', parser, damaged, reqs, pend, sch=sch,
+                                         defer_valid=dv)
+                                if dv and parser == 'etree':
+                                    deferred.append((dv[0], w2, False))
+                if not deferred:
+                    continue
+                # classification of the deviations from the reference language against the pinned ModelVisitor (C01-F0)
+                answers = None
+                if have_port:
+                    intro = cm.Introspector(group)
+                    if cm.ast_of_json(intro.json) == plain:
+                        ans = port.query([{'n': len(intro.objs), 'model': intro.json,
+                                           'words': [cm.word_json(w2) for _c, w2, _l in deferred], 'oc': None}])[0]
+                        answers = ans.get('r') if isinstance(ans, dict) else None
+                for j, (case, w2, in_lang) in enumerate(deferred):
+                    a = answers[j] if answers is not None and j < len(answers) else None
+                    impl_valid = not in_lang          # the deviation: library's verdict is the opposite of the reference
+                    if a is None or a.get('f'):
+                        ctx.count('content-model family: deviation from the reference language, not classified (no port)')
+                    elif a['m'] == impl_valid and a['o'] == in_lang:
+                        ctx.count('content-model family: skipped, C01-F0 (the pinned ModelVisitor port reproduces it): '
+                                  + ('accepts a non-word' if impl_valid else 'rejects a word'))
+                    elif impl_valid:
+                        ctx.failure('a document damaged at a single node is reported valid', case,
+                                    {'kind': 'valid', 'damaged': case['damaged'], 'reference language': 'rejects the word',
+                                     'pinned ModelVisitor port (C01)': 'rejects the word' if not a['m'] else 'accepts',
+                                     'oracle inModel (C01)': a['o']})
+                    else:
+                        ctx.failure('generated valid document reported invalid', case,
+                                    {'reference language': 'accepts the word', 'pinned ModelVisitor port (C01)': a['m'],
+                                     'oracle inModel (C01)': a['o']})
+            if len(ctx.failures) >= 40:
+                break
+    if drv is not None:
+        compare(ctx, drv, reqs, pend)
+
+
 def renders(ctx: Ctx, drv: Optional[Driver]) -> None:
     """get_prefixed_qname on random maps against the model; a rendered name must read back to the tag"""
     from xmlschema.utils.qnames import get_prefixed_qname
@@ -1673,6 +1888,7 @@ def run(ctx: Ctx, driver_ok: bool) -> None:
     na11_family(ctx, drv)
     same_family(ctx, drv)
     inh11_family(ctx, drv)
+    cm_family(ctx, drv)
     renders(ctx, drv)
     lazy_paths(ctx, drv)
     ctx.extra['explanation'] = ('every fault of the catalogue at every node (documents <= 40 nodes exhaustively, 40 seeded '
@@ -1699,9 +1915,10 @@ def replay(ctx: Ctx, obj: dict) -> int:
     reqs: list = []
     pend: list = []
     dmg = tuple(case['damaged']) if case.get('damaged') is not None else None
-    run_case(ctx, case, case['xml'], case['form'], case['parser'], dmg, reqs, pend)
+    sch = cm_schema(case) if case['form'] == 'cm' else schema(case['form'])
+    run_case(ctx, case, case['xml'], case['form'], case['parser'], dmg, reqs, pend, sch=sch)
     import xmlschema
-    for e in schema(case['form']).iter_errors(xmlschema.XMLResource(case['xml'])):
+    for e in sch.iter_errors(xmlschema.XMLResource(case['xml'])):
         print('REAL  error:', e.path, '|', str(e.reason)[:100])
     try:
         for (c, positions), m in zip(pend, Driver('drv_c19').query(reqs)):
